@@ -109,6 +109,15 @@ def prop(case):
                 raise Violation("legal-step", "legal step %d %r raised %s: %s\n%s" % (step, op, type(e).__name__, str(e)[:300], run.model.text()),
                                 "%s/%s" % (op[0], type(e).__name__))
             continue
+        if vlevel == 0:
+            # warm-up read: without validation the first access decodes lazily parsed fields and may re-spell
+            # them (the property on purity names this as intended); the snapshot is taken after that
+            for l in O.all_lines(run.gfa, split_headers=False):
+                for fn in list(l.positional_fieldnames) + list(l.tagnames):
+                    try:
+                        l.get(fn)
+                    except Exception:
+                        pass
         before = full_obs(run.gfa)
         btext = str(run.gfa)
         e = do_fail(run, op)
